@@ -223,8 +223,8 @@ def plan(tier):
             yield S(P(kinds, [first - 1], role, "1cut+fin", True)), 0
     yield S(P(["req", "req"], [20], "server", "1cut")), 1
     if thorough:
-        yield S(P(["dwr", "req"], [], "client", "whole+fin", True)), 1
-        yield S(P(["req"], [21], "client", "1cut")), 1
+        yield S(P(["dwr", "req"], [], "client", "whole+fin", True)), 0
+        yield S(P(["req"], [21], "client", "1cut")), 0
     yield P(["req", "bad", "req"], [], "server", "whole+bad"), 1
     yield P(["req", "req"], [], "server", "whole+fin", True), 1
     yield P(["dwr", "req"], [], "client", "whole+fin", True), 1
